@@ -11,6 +11,9 @@ func c02(c *Ctx) {
 		n = 5000
 	}
 	progs := pipelineCorpus()
+	sw := sweepProgs(c, map[bool]int{false: 10, true: 1}[c.Thorough()])
+	progs = append(progs, sw...)
+	n += len(sw)
 	for len(progs) < n {
 		progs = append(progs, genProg(rng, ProgOpts{MaxNodes: 6 + rng.Intn(50), Malformed: rng.Chance(5), Phys: true, Synth: true, NVirt: 8, Branches: true}))
 	}
